@@ -101,6 +101,10 @@ type SessionStore interface {
 	Put(key string, value interface{}, options ...SessionOption) error
 	// GetAndDelete combines Get and Delete as a convenience for burning nonce entries.
 	GetAndDelete(key string, target interface{}) error
+	// PutIfAbsent stores the given value for the given key, unless the key already exists.
+	// It returns true if the value was stored, false if the key already exists.
+	// It can be used to check and register single-use values (e.g. nonces) in one step.
+	PutIfAbsent(key string, value interface{}, options ...SessionOption) (bool, error)
 }
 
 // TransactionKey is the key used to store the SQL transaction in the context.
